@@ -84,15 +84,18 @@ def r01_1(ctx):
         ctx.violation(["directive-types"], "the set of directive types changed: %s (expected %s): no documented semantics for the difference" % (
             [v["name"] for v in dt["variants"]] if dt else None, DT))
         return
+    mo = modes(ctx)
     for v in DT:
-        e = enum_edges(ed, lib, ADT["DirectiveType"], lambda vs, v=v: v in vs)
+        # the dispatch outside Clean (the Clean arm has its own, smaller dispatch: C07)
+        e = {eid for eid in enum_edges(ed, lib, ADT["DirectiveType"], lambda vs, v=v: v in vs)
+             if mo.local_modes(ed, eid[0]) - {"Clean"}}
         if not e:
             ctx.anchor_missing("arm for DirectiveType::%s in execute_directive" % v)
             continue
         # blocks reachable in this variant and in no variant of a different expected class
         targets = {ed.raw_succs(eb)[ei][0] for (eb, ei) in e}
         others = {eid for eid in enum_edges(ed, lib, ADT["DirectiveType"], lambda vs, v=v: v not in vs)
-                  if ed.raw_succs(eid[0])[eid[1]][0] not in targets}
+                  if ed.raw_succs(eid[0])[eid[1]][0] not in targets and mo.local_modes(ed, eid[0]) - {"Clean"}}
         reg = C.region(ed, e) - C.region(ed, others) if others else C.region(ed, e)
         calls = _effect_calls(ed, reg)
         sig = {C.callee_name(t) for bb, t in calls if significant(C.callee_name(t))}
